@@ -48,6 +48,7 @@ type Contract struct {
 	Labels map[*Clause]string
 	Lets   map[string]Expr
 	CallReqs []*CallReq // extra conditions at call sites inside this function
+	InitReq  map[int]bool // indexes into Requires: established by package init, not re-proved at call sites
 	SendReqs []*Clause  // conditions on values this function sends on a channel ("sent" names the value)
 	SendSite []int      // per SendReqs entry: 0 = every send site, k = only the k-th send site in source order
 	RecvAssumes []*Clause // assumed about every value received from a channel ("recv", "recvFrom"): the matching sendreq of the sender justifies it
@@ -58,7 +59,7 @@ type Contract struct {
 }
 
 var clauseKeywords = map[string]bool{
-	"func": true, "mode": true, "props": true, "trusted": true, "requires": true, "ensures": true,
+	"func": true, "mode": true, "props": true, "trusted": true, "requires": true, "ensures": true, "initrequires": true,
 	"assigns": true, "nopanic": true, "pure": true, "loop": true, "invariant": true, "decreases": true,
 	"note": true, "funcfield": true, "iface": true, "global": true, "let": true, "oracle": true, "covers": true, "def": true, "callreq": true, "sendreq": true, "preserves": true, "retreq": true, "recvassume": true, "onskip": true, "iterpost": true,
 }
@@ -248,12 +249,21 @@ func parseContractLines(sc *bufio.Scanner, path, pkgPath string) ([]*Contract, e
 				cur.Lets = map[string]Expr{}
 			}
 			cur.Lets[strings.TrimSpace(rc.text[:i])] = e
-		case "requires", "ensures":
+		case "requires", "ensures", "initrequires":
 			c, err := mk(rc.kw, rc)
 			if err != nil {
 				return nil, err
 			}
-			if rc.kw == "requires" {
+			if rc.kw == "initrequires" {
+				// a fact about package-level state that package initialisation establishes (proved as a
+				// postcondition of init) and no function changes: assumed in the body like a requires, not
+				// re-proved at every call site (recorded there as an assumption)
+				if cur.InitReq == nil {
+					cur.InitReq = map[int]bool{}
+				}
+				cur.InitReq[len(cur.Requires)] = true
+				cur.Requires = append(cur.Requires, c)
+			} else if rc.kw == "requires" {
 				cur.Requires = append(cur.Requires, c)
 			} else {
 				cur.Ensures = append(cur.Ensures, c)
